@@ -7,7 +7,11 @@ Correspondence streams (model `lean/Model/C05/*` vs the real btclib, same op lin
       msg (p2p envelope), ping, feefilter, netaddr, addr, inventory, inv, getheaders, headers, version,
       xkey (BIP32KeyData), keyorigin, ssasig, bmssig; on acceptance the line also carries
       the model's own re-serialization and size of the parsed object (and for tx: stripped form, both
-      sizes, weight, vsize, txid, wtxid), so one op ties parser, serializer and size function.
+      sizes, weight, vsize, txid, wtxid).  These lines tie the PARSER (and size/weight/ids); on them the
+      printed `ser=` is by T2 the consumed input, i.e. btclib's own round trip.
+  <class>.ser                          the SERIALIZER tie: objects built by the constructors from generated
+      fields (btclib's parser not involved); the model must parse `x.serialize()` to an object rendering as
+      `x`, which with T2 of the model gives model.ser(x) == x.serialize()
   psbtmap.norm                         sorted re-emission of one PSBT input map
   psbtin.reser0|2, psbtout.reser0|2    typed layer: `X.parse(b).serialize()` on every accepted map, records
       the codec normalises away included (one-sided where btclib's refusal is semantic)
@@ -705,6 +709,83 @@ def mutate(p: Parts, rng) -> bytes:
     return b
 
 
+# ------------------------------------------------------------------ objects built from fields (serializer tie)
+def objects(rng):
+    """{op: object} built by the constructors from generated fields -- never through `parse` -- so that the
+    `<class>.ser` streams tie btclib's *serializer* to the model independently of btclib's parser: the
+    model must parse `x.serialize()` to an object that renders as `x` and re-serializes to the same octets
+    (by T2 of the model that makes `model.ser(x) == x.serialize()`)."""
+    from datetime import datetime, timezone
+    import btclib.p2p as P
+    from btclib.bip32 import BIP32KeyData, BIP32KeyOrigin
+    from btclib.ecc import bms, dsa, ssa
+    from btclib.script import ScriptPubKey
+    cv = {"check_validity": False}
+    u32 = lambda: g_u32(rng)  # noqa: E731
+    rb = lambda n: common.rand_bytes(rng, n)  # noqa: E731
+
+    def outpoint():
+        return OutPoint(rb(32), u32(), **cv)
+
+    def wit(allow_empty=True):
+        n = rng.choice([0, 1, 2, 3] if allow_empty else [1, 2])
+        return Witness([rb(rng.choice([0, 0, 1, 33, 72])) for _ in range(n)], **cv)
+
+    def txin(w=None):
+        return TxIn(outpoint(), g_script(rng), u32(), Witness() if w is None else w, **cv)
+
+    def txout():
+        return TxOut(g_amount(rng), ScriptPubKey(g_script(rng), "mainnet", check_validity=False), **cv)
+
+    def tx():
+        nin, nout = rng.choice([1, 1, 2, 3]), rng.choice([0, 1, 2, 3])
+        seg = rng.random() < 0.5
+        vin = [txin(wit() if seg else None) for _ in range(nin)]
+        if seg and not any(i.script_witness.stack for i in vin):
+            vin[-1] = txin(wit(False))
+        return Tx(u32(), u32(), vin, [txout() for _ in range(nout)], **cv)
+
+    def header():
+        t = datetime.fromtimestamp(rng.choice([0, 1231006505, 2**32 - 1, rng.getrandbits(32)]), timezone.utc)
+        return BlockHeader(rng.choice([1, 2, 0x20000000, -1, -2**31, 2**31 - 1]), rb(32), rb(32), t, rb(4), u32(), **cv)
+
+    def netaddr():
+        return P.NetworkAddress(rng.getrandbits(rng.choice([1, 12, 64])), rb(16), rng.getrandbits(16), **cv)
+
+    def inventory():
+        return P.Inventory(rng.choice([0, 1, 2, 5, 0x40000001, rng.getrandbits(32)]), rb(32), **cv)
+
+    i32 = lambda: rng.choice([0, 70016, -1, -2**31, 2**31 - 1])  # noqa: E731
+    out = {
+        "outpoint.parse": outpoint(), "witness.parse": wit(), "txin.parse": txin(), "txout.parse": txout(),
+        "tx.parse": tx(), "header.parse": header(),
+        "block.parse": Block(header(), [tx() for _ in range(rng.choice([0, 1, 2]))], **cv),
+        "xkey.parse": BIP32KeyData(rb(4), rng.getrandbits(8), rb(4), u32(), rb(32), rb(33), **cv),
+        "ping.parse": P.Ping(rng.getrandbits(64), **cv),
+        "feefilter.parse": P.FeeFilter(rng.choice([0, 1000, -1, 2**63 - 1, -2**63]), **cv),
+        "netaddr.parse": netaddr(),
+        "addr.parse": P.Addr([P.TimestampedNetworkAddress(u32(), netaddr(), **cv) for _ in range(rng.choice([0, 1, 3]))], **cv),
+        "inventory.parse": inventory(),
+        "inv.parse": P.Inv([inventory() for _ in range(rng.choice([0, 1, 4]))], **cv),
+        "getheaders.parse": P.GetHeaders(i32(), [rb(32) for _ in range(rng.choice([0, 1, 3]))], rb(32), **cv),
+        "headers.parse": P.Headers([header() for _ in range(rng.choice([0, 1, 2]))], **cv),
+        "version.parse": P.Version(i32(), rng.getrandbits(64), rng.choice([0, -1, 1700000000, 2**63 - 1]), netaddr(), netaddr(),
+                                   rng.getrandbits(64), rb(rng.choice([0, 16, 256])), i32(), rng.choice([None, True, False]), **cv),
+        "msg.parse": P.Message(rb(4), rng.choice(["ping", "version", "", "twelve_bytes", "a b~"]), rb(rng.choice([0, 1, 40])), **cv),
+        "ssasig.parse": ssa.Sig(rng.getrandbits(256), rng.getrandbits(256), **cv),
+        "bmssig.parse": bms.Sig(rng.getrandbits(8), dsa.Sig(rng.getrandbits(256), rng.getrandbits(256), check_validity=False), **cv),
+        "keyorigin.parse": BIP32KeyOrigin(rb(4), [u32() for _ in range(rng.choice([0, 1, 3, 6]))], **cv),
+    }
+    return out
+
+
+def ser_case(op, x):
+    """op line and implementation-side answer computed from the object alone (no btclib parse)"""
+    _parse, render, ser, size, extra = CLASSES[op]
+    b = ser(x)
+    return f"{op} o {hx(b)}", f"ok {render(x)} rest=_ ser={hx(b)} size={size(x)}{extra(x) if extra else ''}"
+
+
 # ------------------------------------------------------------------ vendored seeds
 _SEEDS = None
 
@@ -829,6 +910,17 @@ def run(ctx):
             ctx.check("wire.canonical", {"op": op, "b": b.hex()})
             ctx.check("wire.roundtrip", {"op": op, "b": b.hex(), "rest": common.rand_bytes(rng, rng.randrange(3)).hex()},
                       nontrivial=False)
+
+    # ---- serializer tie: objects built from fields, btclib's parser not involved on the implementation side
+    per_op = {}
+    for _ in range(ctx.n(120, 2500)):
+        for op, x in objects(rng).items():
+            try:
+                per_op.setdefault(op, []).append(ser_case(op, x))
+            except Exception as e:  # noqa: BLE001 - e.g. an amount the signed field cannot hold
+                ctx.count("c05.ser.unserializable", f"{op}:{type(e).__name__}")
+    for op, cases in per_op.items():
+        ctx.correspond(op.replace(".parse", ".ser"), EXE, cases)
 
     from . import c05_extra
     c05_extra.run(ctx)
